@@ -253,6 +253,10 @@ def check(ctx):
     # ---- C18.c payload released when the target is gone; nothing runs for a dead system ----
     n = core.adopt(ctx, c02, lambda o: o["rule"] == "C02.a" and any(k in o["key"] for k in ("single-disposition", "dispositions=", "abort-only", "run-on-take-some-arm")), "C18.c")
     n += core.adopt(ctx, c05, lambda o: o["rule"] == "C05.d", "C18.c")
+    # a target whose last handle was released is collected *before* it is looked up (else it runs once more on behalf of a
+    # reactor that is already gone): the entry pass dominates the lookup (shared with C08.e)
+    import c08 as _c08
+    n += core.adopt(ctx, _c08, lambda o: o["rule"] == "C08.e" and "runner:collects-and-polls-before-every-lookup" in o["key"], "C18.c")
     # a scheduled reaction whose reactor is gone still goes through the runner (whose abort arm releases the payload share):
     # the command's apply calls the runner exactly once on every path
     n += core.adopt(ctx, c02, lambda o: o["rule"] == "C02.d" and "one-runner-call-per-path" in o["key"], "C18.c")
